@@ -152,15 +152,25 @@ def model_parse(text):
             s_ = nums[1] if len(nums) == 3 else 1.0
             if s_ == 0:
                 return None
+            if abs((b - a) / s_) > 20000:
+                raise TooBig()
             out += model_range(a, s_, b)
     return out
+
+
+class TooBig(Exception):
+    """a range of more than 20000 elements: not generated on purpose, skipped (harness cost only)"""
 
 
 def check_fuzz(case, ctx):
     import verif.util
     from ..runner import repo_frame_key
     text = case["text"]
-    exp = model_parse(text)
+    try:
+        exp = model_parse(text)
+    except TooBig:
+        ctx.label("skipped-huge-range")
+        return
     ctx.evals += 0
     if exp is not None and len(exp) > 5000:
         return
